@@ -203,7 +203,7 @@ ETAGS = ('DATA', 'MISC', 'EBUILD', 'MANIFEST', 'IGNORE')
 
 def file_slot(v, fs, rel, p, kinds=('absent', 'file', 'dir')):
     k = v.choice(p + '_kind', len(kinds))
-    size, dig, mt = v.size(p + '_size'), v.dig(p + '_dig'), v.int(p + '_mtime')
+    (size, dig), mt = v.filetoken(p + '_size', p + '_dig'), v.int(p + '_mtime')
     kind = kinds[k]
     if kind == 'file':
         fs.add_file(rel, size=size, digest=dig, mtime=mt)
@@ -265,6 +265,13 @@ class Const(V_):
     def choice(self, name, n):
         return self._c(name, self.v.choice, n)
 
+    def assume(self, pred, *names):
+        if not any(n in self.consts for n in names):
+            self.v.assume(pred, *names)
+
+    def filetoken(self, size_name, dig_name):
+        return V_.filetoken(self, size_name, dig_name)
+
     def lazychoice(self, name, n):
         if name in self.consts:
             return lambda: self.consts[name]
@@ -293,7 +300,7 @@ def _s_nest(v, a_tags, c_tags):
     fs.add_dir('subx')
     file_slot(v, fs, 'sub/c', 'c')
     fs.add_file('subx/d', size=3, digest='D', mtime=5)
-    sm_size, sm_dig = v.size('sm_size'), v.dig('sm_dig')
+    sm_size, sm_dig = v.filetoken('sm_size', 'sm_dig')
     me_size, me_dig = v.size('me_size'), v.dig('me_dig')
     top = entry_slot(v, 'ea', 'a', tags=a_tags)
     top.append(mk('MANIFEST', 'sub/Manifest', me_size, MD5=digest_for('MD5', me_dig)))
@@ -363,7 +370,7 @@ def s_odd(v):
 
 
 def run_verify(c):
-    return tree.run_verify(c.fs, 'Manifest', c.path, c.last_mtime)
+    return tree.run_verify(tree.world(c), 'Manifest', c.path, c.last_mtime)
 
 
 def judge_verify(c, out):
@@ -428,3 +435,9 @@ def m_conditions(tier):
                                 descr='real assert_directory_verifies on the model vs '
                                       'set-based oracle', bounds=bnd))
     return cs
+
+
+def validate(seed, tier):
+    from vf.scen import validate_against_real
+    cs = [c for c in conditions('quick') if c.name.startswith('m_')]
+    return validate_against_real(cs, seed, per_cond=1, limit=30)
